@@ -167,6 +167,21 @@ def run(ctx):
             g['peer_ip'] = '10.1.2.3'          # the address the harness parses the request under
             GEN[raw] = g
         reqs.append(b'GET /api/v1/items?x=1 HTTP/1.1\r\nHost: a\r\nX-Forwarded-For: 9.9.9.9\r\n\r\n')
+        # large header blocks (33..48 fields) with repeated names: same-named fields must reach the upstream in order
+        big = []
+        for _ in range(8 if thorough else 3):
+            g = G.rand_request(rng, body_max=20, nheaders_max=48)
+            while len(g['headers']) < 33:
+                nm = rng.choice(['Via', 'Cookie', 'X-Trace', 'Accept', 'X-Forwarded-For'] if rng.random() < 0.7 else G.CUSTOM)
+                if nm.lower() == 'x-forwarded-for':
+                    continue
+                g['headers'].insert(rng.randint(0, len(g['headers'])), (G.rand_case(rng, nm), 'v%d' % len(g['headers'])))
+                g['sep'].append(': ')
+            raw = G.render_request(g)
+            g['peer_ip'] = '10.1.2.3'
+            GEN[raw] = g
+            big.append(raw)
+        reqs += big
         def add(kind, beh, req, info=None):
             lines.append('proxy %d %s %s' % (TIMEOUT_MS, beh, hx(req)))
             meta.append((kind, beh, info))
@@ -195,7 +210,7 @@ def run(ctx):
             for kk, v in hs:
                 head += ('%s: %s\r\n' % (kk, v)).encode()
             full = head + b'\r\n' + payload
-            add('valid-' + framing, 'send:%s:close' % full.hex(), rng.choice(reqs), (code, body, framing))
+            add('valid-' + framing, 'send:%s:close' % full.hex(), big[k % len(big)] if k % 5 == 0 else rng.choice(reqs), (code, body, framing))
             # a few cuts of every generated response as well (framed ones only: a close-delimited body has no end to miss)
             if framing != 'close' and len(full) > 1:
                 for i in rng.sample(range(len(full)), 2 if thorough else 1):
